@@ -1,7 +1,7 @@
 (* C13 — strict and lenient unmarshaling honour their contracts.
    Statements only; proofs in Proofs/C13Proofs.v.  The theorems are about the model's
-   unmarshal on every configuration and every document; the encoding of a restored
-   error into the observation compared by the check (orerr_of, sorting) is not covered. *)
+   unmarshal on every configuration and every document; C13_corr_implies_ok ties them to
+   the observation the check compares. *)
 From Errdef Require Import Base.Str Base.Outcome Model.Core Model.Convert Model.Unmarshal Check.UM Check.C13
   Proofs.C10Proofs Proofs.C13Proofs.
 
@@ -69,6 +69,13 @@ Theorem C13_cause_failures_are_internal : forall c d,
   match unmarshal_cause c d with UFail fs => fs = [internal_failure] | _ => True end.
 Proof. exact cause_fail_internal. Qed.
 Print Assumptions C13_cause_failures_are_internal.
+
+(* the formal link between the run and the theorems: an observation that agrees with the model
+   (UM.corr) satisfies the decision table the oracle evaluates (C13.ok), for every case -
+   including the encoding of the restored error into the observation (sorting, value forms) *)
+Theorem C13_corr_implies_ok : forall c, UM.corr c = true -> C13.ok c = true.
+Proof. exact corr_implies_ok13. Qed.
+Print Assumptions C13_corr_implies_ok.
 
 Example C13_example :
   let k := {| uk_key := {| k_id := 1; k_name := "n"; k_ty := 2 |}; uk_ty := FScalar {| s_id := 2; s_kind := KInt |} |} in
